@@ -161,17 +161,28 @@ IndexShapes == <<
                                           Commented(Fld("Zed", 5, "string"), Com2)>>, <<>>)>>),
         [BaseCfg EXCEPT !.exclude = <<"Root.Extra">>]) >>
 
-GenFlagShapes(long) == CommentShapes \o FlagShapesQuick \o CustomFlagShapes \o CrossFileFlagShapes \o IndexShapes \o (IF long THEN FlagShapesFull ELSE <<>>)
+\* flags on the branches of a oneof group (a scalar and a message branch): listed means set, whatever the field kind
+OneofFlagShapes == <<
+  Shape("c10.oneof", Desc(<<Leaf, Msg("Root", <<InOneof(Commented(Fld("BranchA", 1, "string"), Com1), "Grp"), InOneof(MsgF("BranchB", 2, "Leaf"), "Grp"),
+                                                InOneof(Fld("BranchC", 3, "int32"), "Grp"), Fld("Num", 4, "int32")>>, <<"Grp">>)>>),
+        [BaseCfg EXCEPT !.required = <<"Root.BranchA", "Root.BranchB">>, !.computed = <<"Root.BranchC", "Root.BranchB.Str">>,
+                        !.sensitive = <<"Root.BranchA", "Root.BranchC">>, !.usfu = TRUE,
+                        !.validators = <<[k |-> "Root.BranchA", v |-> <<"1">>]>>, !.planmodifiers = <<[k |-> "Root.BranchB", v |-> <<"2">>]>>]) >>
+
+GenFlagShapes(long) == OneofFlagShapes \o CommentShapes \o FlagShapesQuick \o CustomFlagShapes \o CrossFileFlagShapes \o IndexShapes \o (IF long THEN FlagShapesFull ELSE <<>>)
 
 ---------------------------------------------------------------------------
 \* C12: only the selected types, independent of the rest of the request
 
 \* "Leaf Leaf = 3": the usual gogo style of naming a field after its type, the type being selected as well
-SelRoot == Msg("Root", <<Fld("Str", 1, "string"), MsgF("Sub", 2, "Leaf"), MsgF("Leaf", 3, "Leaf")>>, <<>>)
+\* (Root also EMBEDS a message that is never selected, by value; Third embeds it by pointer: the embedded message is built
+\* along the path of the message that embeds it, and it is not a type of its own in the output)
+SelInner == Msg("Inner", <<Fld("Flag", 1, "bool"), Fld("Zed", 2, "string")>>, <<>>)
+SelRoot == Msg("Root", <<Fld("Str", 1, "string"), MsgF("Sub", 2, "Leaf"), MsgF("Leaf", 3, "Leaf"), NonNull(Embed(MsgF("Inner", 4, "Inner")))>>, <<>>)
 SelOther == Msg("Other", <<Fld("Num", 1, "int32"), Rep(Fld("Items", 2, "string")), InOneof(Fld("BranchA", 3, "string"), "Grp"), InOneof(MsgF("BranchB", 4, "Leaf"), "Grp")>>, <<"Grp">>)
-SelThird == Msg("Third", <<Fld("Flag", 1, "bool"), MapOf(MsgF("Dict", 2, "Leaf"))>>, <<>>)
+SelThird == Msg("Third", <<Fld("Num", 1, "int32"), MapOf(MsgF("Dict", 2, "Leaf")), Embed(MsgF("Inner", 3, "Inner"))>>, <<>>)
 SelExtra == Msg("Extra", <<Fld("Raw", 1, "bytes"), MsgF("Sub", 2, "Leaf")>>, <<>>)
-SelMsgs == <<Leaf, SelRoot, SelOther, SelThird>>
+SelMsgs == <<Leaf, SelInner, SelRoot, SelOther, SelThird>>
 SelNames == <<"Leaf", "Root", "Other", "Third">>
 SelDep == [pkg |-> "depx", share |-> FALSE, msgs |-> <<Msg("Poison", <<Fld("Str", 1, "string")>>, <<>>), Msg("Bad", <<Fld("Num", 1, "int64")>>, <<>>)>>]
 
@@ -251,6 +262,11 @@ PoisonAt(pos, kind) ==
        [] pos = "map" -> [msgs |-> <<holder, Msg("Poison", <<Fld("Str", 1, "string"), MapOf(MsgF("Dict", 2, "Mid"))>>, <<>>)>>, key |-> "Mid.Bad"]
        [] pos = "embed" -> [msgs |-> <<holder, Msg("Poison", <<Fld("Str", 1, "string"), NonNull(Embed(MsgF("Mid", 2, "Mid")))>>, <<>>)>>, key |-> "Mid.Bad"]
        [] pos = "oneof" -> [msgs |-> <<holder, Msg("Poison", <<InOneof(Fld("BranchA", 1, "string"), "Grp"), InOneof(MsgF("BranchB", 2, "Mid"), "Grp")>>, <<"Grp">>)>>, key |-> "Poison.BranchB.Bad"]
+       \* five plain message fields between the selected type and the message that holds the field
+       [] pos = "deep5" -> [msgs |-> <<holder, Msg("Extra", <<Fld("Flag", 1, "bool"), MsgF("Mid", 2, "Mid")>>, <<>>),
+                                      Msg("Third", <<MsgF("Sub", 1, "Extra")>>, <<>>), Msg("Inner", <<MsgF("Sub", 1, "Third"), Fld("Str", 2, "string")>>, <<>>),
+                                      Msg("Outer", <<Rep(MsgF("Subs", 1, "Inner"))>>, <<>>),
+                                      Msg("Poison", <<Fld("Str", 1, "string"), MsgF("Sub", 2, "Outer")>>, <<>>)>>, key |-> "Mid.Bad"]
        [] OTHER -> [msgs |-> <<holder, Msg("Outer", <<Fld("Flag", 1, "bool"), MsgF("Mid", 2, "Mid")>>, <<>>),
                                Msg("Poison", <<Fld("Str", 1, "string"), MsgF("Sub", 2, "Outer")>>, <<>>)>>, key |-> "Poison.Sub.Mid.Bad"]
 
@@ -279,7 +295,7 @@ SharedPoison(kind) ==
         mk("1bad", cfg(<<>>), "Root"), mk("1bad", cfg(<<>>), "Poison"), mk("1bad", cfg(<<>>), "Other"),
         mk("2excl", cfg(<<"Mid.Bad">>), "Root"), mk("2excl", cfg(<<"Mid.Bad">>), "Poison"), mk("2excl", cfg(<<"Mid.Bad">>), "Other") >>
 
-Positions == <<"top", "nested", "list", "map", "embed", "oneof", "deep">>
+Positions == <<"top", "nested", "list", "map", "embed", "oneof", "deep", "deep5">>
 BadKinds == <<"time", "dur", "mapkey", "ptime", "pdur">>
 GenWholeShapes(long) ==
   IF long THEN FlattenSeq([i \in 1..(Len(Positions) * Len(BadKinds)) |->
@@ -287,7 +303,7 @@ GenWholeShapes(long) ==
                \o SharedPoison("time") \o SharedPoison("dur") \o SharedPoison("mapkey")
   ELSE WholeShapesFor("top", "time") \o WholeShapesFor("nested", "mapkey") \o WholeShapesFor("list", "dur")
        \o WholeShapesFor("map", "time") \o WholeShapesFor("embed", "mapkey") \o WholeShapesFor("oneof", "dur") \o WholeShapesFor("deep", "time")
-       \o SharedPoison("time") \o WholeShapesFor("nested", "ptime") \o WholeShapesFor("top", "pdur")
+       \o SharedPoison("time") \o WholeShapesFor("nested", "ptime") \o WholeShapesFor("top", "pdur") \o WholeShapesFor("deep5", "time")
 
 ---------------------------------------------------------------------------
 \* C16: command line and YAML are equivalent channels; C14: determinism
@@ -320,6 +336,10 @@ ChanAlts(long) ==
   \o <<[Alt("yaml.flow", "C16.channel_equiv", <<>>, 0, <<>>) EXCEPT !.yamlstyle = "flow"],
        [Alt("yaml.alias", "C16.channel_equiv", <<>>, 0, <<>>) EXCEPT !.yamlstyle = "alias"],
        [Alt("mix.alias", "C16.channel_equiv", ChanOne(1, "cli"), 3, <<>>) EXCEPT !.yamlstyle = "alias"]>>
+  \* the other spellings of a boolean the command line understands (sort=1, sort=t, ...), alone and against a contradicting file
+  \o [i \in 1..5 |-> [Alt("sort.cli." \o <<"1", "t", "T", "TRUE", "True">>[i], "C16.channel_equiv", ChanOne(9, "cli"), 0, <<>>)
+                        EXCEPT !.boolstyle = <<"1", "t", "T", "TRUE", "True">>[i]]]
+  \o [i \in 1..2 |-> [Alt("sort.both." \o <<"1", "T">>[i], "C16.cli_wins", ChanOne(9, "both"), 0, <<>>) EXCEPT !.boolstyle = <<"1", "T">>[i]]]
 
 GenConfigShapes(long) == <<
   [Shape("c16.chan", Desc(<<Leaf, ChanRoot, ChanOther>>), [ChanCfg EXCEPT !.alts = ChanAlts(long)]) EXCEPT !.root = "Root"],
@@ -365,6 +385,11 @@ GenDetShapes(long) == <<
   [Shape("c14.embeds", Desc(DetEmbeds), [BaseCfg EXCEPT !.types = <<"Outer">>, !.alts = DetAlts(long)]) EXCEPT !.root = "Outer"],
   [Shape("c14.embeds.sorted", Desc(DetEmbeds), [BaseCfg EXCEPT !.types = <<"Outer">>, !.sort = TRUE, !.alts = DetAlts(long)]) EXCEPT !.root = "Outer", !.run = "c14.embeds.sorted"],
   [Shape("c14.multi", Desc(<<DetLeaf, ChanRoot, ChanOther>>), [DetCfg EXCEPT !.alts = DetAlts(long)]) EXCEPT !.root = "Root"],
+  \* selected types declared in TWO proto files of the request (the file to generate and a file of the same package it imports)
+  [Shape("c14.xfile", [pkg |-> "tp", msgs |-> <<XFront, XRoot>>, deps |-> <<XDep>>],
+         [BaseCfg EXCEPT !.types = <<"Root", "Extra", "Other">>, !.alts = DetAlts(long)]) EXCEPT !.root = "Root"],
+  [Shape("c14.xfile.sorted", [pkg |-> "tp", msgs |-> <<XFront, XRoot>>, deps |-> <<XDep>>],
+         [BaseCfg EXCEPT !.types = <<"Root", "Extra", "Other">>, !.sort = TRUE, !.alts = DetAlts(long)]) EXCEPT !.root = "Extra", !.run = "c14.xfile.sorted"],
   [Shape("c14.sorted", Desc(<<DetLeaf, ChanRoot, ChanOther>>), [DetCfg EXCEPT !.sort = TRUE, !.alts = DetAlts(long)]) EXCEPT !.root = "Leaf", !.run = "c14.sorted"] >>
 
 ---------------------------------------------------------------------------
@@ -396,7 +421,9 @@ SortInner == Msg("Inner", <<Fld("Zed", 1, "bool"), Fld("Flag", 2, "bool")>>, <<>
 \* a message with two oneof groups declared against the alphabet, reached TWICE from a selected type
 SortPair == Msg("Pair", <<InOneof(Fld("BranchC", 1, "string"), "Zed"), InOneof(Fld("BranchD", 2, "int32"), "Zed"),
                           InOneof(Fld("BranchA", 3, "string"), "Alpha")>>, <<"Zed", "Alpha">>)
-SortOther == Msg("Other", <<Fld("Num", 1, "int32"), Fld("Flt", 2, "float"), MsgF("Sub", 3, "Pair"), MsgF("Sub2", 4, "Pair")>>, <<>>)
+\* (... and once more as the VALUE type of a map: the message of a map field hangs off the entry's value field)
+SortOther == Msg("Other", <<Fld("Num", 1, "int32"), Fld("Flt", 2, "float"), MsgF("Sub", 3, "Pair"), MsgF("Sub2", 4, "Pair"),
+                            MapOf(MsgF("Dict", 5, "Pair"))>>, <<>>)
 SortMsgs == <<Leaf, SortInner, SortPair, SortRoot, SortOther>>
 SortCfg(sort) == [BaseCfg EXCEPT !.types = <<"Root", "Other", "Leaf">>, !.sort = sort, !.exclude = <<"Root.Extra">>]
 
@@ -465,6 +492,8 @@ SepSel == <<ScalarShapes[8], ScalarShapes[6], ScalarShapes[10], ScalarShapes[13]
                                                      Rep(Fld("Fa", 4, "bool")), MapOf(Fld("Fb", 5, "uint32"))>>, <<>>)>>), BaseCfg),
             \* the word "package" inside a description: only the package clause of the file may be rewritten
             CastBuiltin,
+            \* duration_custom_type names a cast type by its bare name, wherever the generated code lives
+            CastNameShapes[1],
             Shape("s.pkgcomment", Desc(<<Msg("Root", <<Commented(Fld("Str", 1, "string"), ComPkg), Commented(Fld("Num", 2, "int32"), Com1)>>, <<>>)>>), BaseCfg)>>
 
 SepTriple(sp) ==
@@ -490,11 +519,14 @@ AddrLeaf == Msg("Leaf", <<Fld("Str", 1, "string"), Fld("Num", 2, "int32")>>, <<>
 AddrMid == Msg("Mid", <<MsgF("Sub", 1, "Leaf"), Fld("Flag", 2, "bool")>>, <<>>)
 AddrOuter == Msg("Outer", <<NonNull(Embed(MsgF("Leaf", 1, "Leaf"))), Fld("Kind", 2, "enum")>>, <<>>)
 AddrRoot == Msg("Root", <<Fld("Zed", 1, "string"), MsgF("Sub", 2, "Leaf"), MsgF("Sub2", 3, "Leaf"), Rep(MsgF("Subs", 4, "Leaf")),
-                          MapOf(MsgF("Dict", 5, "Leaf")), MsgF("Mid", 6, "Mid"), MsgF("Extra", 7, "Outer")>>, <<>>)
+                          MapOf(MsgF("Dict", 5, "Leaf")), MsgF("Mid", 6, "Mid"), MsgF("Extra", 7, "Outer"),
+                          \* (the field Mid is named like its type, and the type occurs once more: the full path Root.Mid.Flag ends
+                          \* in the spelling of the Message.field key Mid.Flag without being one)
+                          MsgF("Third", 8, "Mid")>>, <<>>)
 AddrDesc == Desc(<<AddrLeaf, AddrMid, AddrOuter, AddrRoot>>)
 
 AddrKeys == <<"Root.Sub.Str", "Leaf.Str", "Root.Subs.Num", "Root.Dict.Str", "Root.Mid.Sub.Num", "Mid.Sub", "Root.Zed",
-              "Root.Extra.Str", "Root.Extra.Kind", "Outer.Kind", "Root.Sub2">>
+              "Root.Extra.Str", "Root.Extra.Kind", "Outer.Kind", "Root.Sub2", "Root.Mid.Flag">>
 AddrOptions == <<"exclude", "required", "computed", "sensitive", "nameoverride", "validators", "planmodifiers">>
 
 AddrCfg(opt, key) ==
